@@ -23,6 +23,8 @@ structure NodeOk (s : Inst) (room : Nat) (n : InNode) : Prop where
   sig : n.sigOk = true
   inRoom : n.row.room = some room
   known : knownEnt n.row.ent = true
+  /-- not a row of a room definition (those are accepted through `add_room_node` only) -/
+  data : authEnt n.row.ent = false
   conforms : n.conforms = true
   small : n.big = false
   right : HasRight s room n.row.key n.row.ent n.row.mdate
@@ -36,6 +38,7 @@ structure NodeOkD (d : Defects) (s : Inst) (room : Nat) (n : InNode) : Prop wher
   sig : n.sigOk = true
   inRoom : n.row.room = some room
   known : knownEnt n.row.ent = true
+  data : d.authEntityUnchecked = false → authEnt n.row.ent = false
   conforms : n.conforms = true ∨ (d.jsonAbsentUnchecked = true ∧ n.jsonAbsent = true)
   small : n.big = false
   right : HasRight s room n.row.key n.row.ent n.row.mdate
@@ -53,12 +56,14 @@ structure NodeOkD (d : Defects) (s : Inst) (room : Nat) (n : InNode) : Prop wher
 structure EdgeOk (s : Inst) (room : Nat) (prev : Option EdgeRow) (e : InEdge) : Prop where
   sig : e.sigOk = true
   known : knownEnt e.row.srcEnt = true
+  data : authEnt e.row.srcEnt = false
   source : ∃ l, localRow s.nodes e.row.src = some l ∧ l.room = some room ∧ l.ent = e.row.srcEnt
   right : HasRight s room e.row.key e.row.srcEnt e.row.cdate (needOn (prev.map (·.key)) e.row.key)
 
 structure EdgeOkD (d : Defects) (s : Inst) (room : Nat) (prev : Option EdgeRow) (e : InEdge) : Prop where
   sig : e.sigOk = true
   known : knownEnt e.row.srcEnt = true
+  data : d.authEntityUnchecked = false → authEnt e.row.srcEnt = false
   source : d.edgeSourceUnchecked = false →
     ∃ l, localRow s.nodes e.row.src = some l ∧ l.room = some room ∧ l.ent = e.row.srcEnt
   right : HasRight s room e.row.key e.row.srcEnt e.row.cdate
@@ -71,6 +76,7 @@ structure NodeDelOk (s : Inst) (room : Nat) (r : InNodeDel) : Prop where
   sig : r.sigOk = true
   inRoom : r.entry.room = room
   known : knownEnt r.entry.ent = true
+  data : authEnt r.entry.ent = false
   sameEntity : ∀ l, localRow s.nodes r.entry.id = some l → l.ent = r.entry.ent
   right : HasRight s r.entry.room r.entry.key r.entry.ent r.entry.ddate
     (needOn ((localRow s.nodes r.entry.id).map (·.key)) r.entry.key)
@@ -79,6 +85,7 @@ structure NodeDelOkD (d : Defects) (s : Inst) (room : Nat) (r : InNodeDel) : Pro
   sig : r.sigOk = true
   inRoom : d.delRoomUnchecked = false → r.entry.room = room
   known : knownEnt r.entry.ent = true
+  data : d.authEntityUnchecked = false → authEnt r.entry.ent = false
   sameEntity : d.delEntityUnchecked = false → ∀ l, localRow s.nodes r.entry.id = some l → l.ent = r.entry.ent
   right : HasRight s r.entry.room r.entry.key r.entry.ent r.entry.ddate
     (needOn ((localRow s.nodes r.entry.id).map (·.key)) r.entry.key)
@@ -88,6 +95,7 @@ structure EdgeDelOk (s : Inst) (room : Nat) (r : InEdgeDel) : Prop where
   sig : r.sigOk = true
   inRoom : r.entry.room = room
   known : knownEnt r.entry.srcEnt = true
+  data : authEnt r.entry.srcEnt = false
   source : ∀ l, localRow s.nodes r.entry.src = some l → l.room = some r.entry.room ∧ l.ent = r.entry.srcEnt
   right : HasRight s r.entry.room r.entry.key r.entry.srcEnt r.entry.ddate
     (needOn ((s.edges.find? (edgeMatches r.entry)).map (·.key)) r.entry.key)
@@ -96,6 +104,7 @@ structure EdgeDelOkD (d : Defects) (s : Inst) (room : Nat) (r : InEdgeDel) : Pro
   sig : r.sigOk = true
   inRoom : d.delRoomUnchecked = false → r.entry.room = room
   known : knownEnt r.entry.srcEnt = true
+  data : d.authEntityUnchecked = false → authEnt r.entry.srcEnt = false
   source : d.edgeDelSourceUnchecked = false →
     ∀ l, localRow s.nodes r.entry.src = some l → l.room = some r.entry.room ∧ l.ent = r.entry.srcEnt
   right : HasRight s r.entry.room r.entry.key r.entry.srcEnt r.entry.ddate
